@@ -5,6 +5,7 @@
    Wire format: space separated tokens; naturals in decimal (< 2^64) ;
    range list = n s1 e1 ... sn en. *)
 open Moc_model
+type string = Stdlib.String.t
 
 (* ---------- N <-> decimal through Int64 (unsigned) ---------- *)
 let rec pos_of_int64 (x : int64) : positive =
@@ -518,6 +519,27 @@ let handle (r : reader) : unit =
        | SOk (d, es) -> out_s "OK"; out_n d; out_elems es
        | SErr e -> out_s ("ERR " ^ (match e with SEmptyReader -> "EmptyReader" | SQtyExpected -> "QtyExpectedAtFirstLine"
                                     | SNoData -> "NoData" | SDepthExpected -> "DepthExpectedAtSecondLine" | SDepthNotValid -> "Depth")))
+  | "FITSW" ->
+      (* FITSW q w d ranges -> the whole file ranges_to_fits_ivoa writes (hex) *)
+      let q = next_qty r in
+      let w = next_n r in
+      let d = next_n r in
+      let l = next_ranges r in
+      out_s "OK"; out_hex (fits_write q w d l)
+  | "FITSR" ->
+      (* FITSR hex -> from_fits_ivoa + collect: leaf, width, depths, data; or the error kind *)
+      let s = bytes_of_hex (next r) in
+      (match fits_read s with
+       | FOk (lf, w, d1, d2, dt) ->
+           out_s ("OK " ^ (match lf with LSNuniq -> "s-cells" | LSRange -> "s-ranges" | LTRange -> "t-ranges" | LFRange -> "f-ranges"
+                                         | LSTRange -> "st-v2" | LST29 -> "st-prev2"));
+           out_n w; out_n d1; out_n d2;
+           (match dt with DRanges l -> out_ranges l | DCells l -> out_ranges l | DSt -> ())
+       | FErr e -> out_s ("ERR " ^ (match e with
+           | FIo -> "Io" | FUnexpectedKeyword -> "UnexpectedKeyword" | FValueIndicatorNotFound -> "ValueIndicatorNotFound"
+           | FUnexpectedValue -> "UnexpectedValue" | FUintValueNotFound -> "UintValueNotFound" | FStringValueNotFound -> "StringValueNotFound"
+           | FWrongUintValue -> "WrongUintValue" | FMissingKeyword -> "MissingKeyword" | FUncompatibleKeywordContent -> "UncompatibleKeywordContent"
+           | FUnexpectedDepth -> "UnexpectedDepth" | FCustom -> "Custom" | FFuel -> "FUEL-EXHAUSTED")))
   | "HIST" -> handle_hist r
   | "MSET" -> handle_mset r
   | "TEXTV" ->
